@@ -5,6 +5,7 @@ pub mod c02;
 pub mod c03;
 pub mod sat;
 pub mod c04;
+pub mod c05;
 pub mod c07;
 pub mod c08;
 pub mod c12;
@@ -39,6 +40,7 @@ pub fn registry() -> Vec<Property> {
         Property { id: "C02", gen: c02::gen, exec: c02::exec, shrink: c02::shrink, runs: (300, 5000) },
         Property { id: "C03", gen: c03::gen, exec: c03::exec, shrink: c03::shrink, runs: (60, 900) },
         Property { id: "C04", gen: c04::gen, exec: c04::exec, shrink: c04::shrink, runs: (160, 2500) },
+        Property { id: "C05", gen: c05::gen, exec: c05::exec, shrink: c05::shrink, runs: (300, 6000) },
         Property { id: "C07", gen: c07::gen, exec: c07::exec, shrink: c07::shrink, runs: (600, 12000) },
         Property { id: "C08", gen: c08::gen, exec: c08::exec, shrink: c08::shrink, runs: (120, 4000) },
         Property { id: "C12", gen: c12::gen, exec: c12::exec, shrink: c12::shrink, runs: (3000, 60000) },
